@@ -304,12 +304,12 @@ def run(tier, seed, verdict):
     mk = lambda cfg, stride: runner.ExportRun("MC_NixTagging", cfg, seed, "harness.c08", stride=stride,  # noqa
                                               label=label, batch=200)
     if quick:
-        runs = [mk("MC_C08_r1_quick.cfg", 1), mk("MC_C08_r2_quick.cfg", 2)]
+        runs = [mk("MC_C08_r1_quick.cfg", 1), mk("MC_C08_r2_quick.cfg", 2), mk("MC_C08_r3_quick.cfg", 3)]
     else:
-        runs = [mk("MC_C08_r1.cfg", 1), mk("MC_C08_r2.cfg", 1)]
+        runs = [mk("MC_C08_r1.cfg", 1), mk("MC_C08_r2.cfg", 1), mk("MC_C08_r3.cfg", 1)]
     level, cov, assumptions = runner.assemble(
         "C08", verdict, runs,
-        rule="TLC enumerates referenced arrays of rank 1 and 2 (per dimension: sampled / range / set descriptor incl. "
+        rule="TLC enumerates referenced arrays of rank 1, 2 and 3 (per dimension: sampled / range / set descriptor incl. "
              "negative offsets, fractional intervals, repeated ticks, unlabeled sets; stored extent; tag-unit / "
              "dimension-unit case incl. both-prefixed, up- and down-scaling, missing and non-convertible units) x tags "
              "(region start on / between / before / beyond samples, extent none / 0 / between / on-sample / past the "
@@ -323,10 +323,11 @@ def run(tier, seed, verdict):
                      "a region reaching beyond the last tick / label of a bounded descriptor may be refused (tolerated)",
                      "negative extents, unit lists shorter than the position, and tags mixing unit / no unit over "
                      "non-set dimensions are left open; indexed features of a single Tag are not judged",
-                     "rank 3 is not enumerated (rank 2 covers every pair of descriptor kinds and short positions)"],
+                     "rank 3 is enumerated with one descriptor of each kind in every order, two unit cases, positions of "
+                     "length 3 and 2"],
         tlc_props=["ExactlyRegion", "NoneMeansNone", "ZeroIsPoint", "RuleOnlyAtEnd", "AgreesWithRangeIndices",
                    "BeyondIsWhole"],
-        need=("data/rank1", "none/rank1", "incompatible/rank1", "data/rank2", "none/rank2"))
+        need=("data/rank1", "none/rank1", "incompatible/rank1", "data/rank2", "none/rank2", "data/rank3", "none/rank3"))
     if not cov["counters"].get("vectors"):
         raise core.MachineryError("no vector executed")
     return level, cov, assumptions
